@@ -137,8 +137,12 @@ theorem claimEpoch_sim {s : St} {u expAmt expEnd ep : Nat} {f0 : Flow} {st : Cla
     split at h
     · rename_i hlt
       injection h with h; subst h
-      refine ⟨.next rt, by rw [if_pos hlt], ?_, rfl⟩
-      exact { static := hR.static, emitted := hR.emitted, lu := hR.lu, ls := hR.ls, claimed := hR.claimed, paid := hR.paid }
+      refine ⟨.next { rt with lastUpd := (weightAt s u ep rt.lastUpd rt.lastSeen).1,
+                              lastSeen := (weightAt s u ep rt.lastUpd rt.lastSeen).2.1 },
+        by rw [if_pos hlt], ?_, rfl⟩
+      exact { static := hR.static, emitted := hR.emitted,
+              lu := by simp only; rw [hR.lu, hR.ls], ls := by simp only; rw [hR.lu, hR.ls],
+              claimed := hR.claimed, paid := hR.paid }
     · rename_i hlt
       rw [if_neg hlt]
       split at h
